@@ -29,6 +29,11 @@ def rand_icfg(rng):
     return {"ib": rng.choice([0, 0, 1, 2, 3]), "bb": rng.choice([0, 1, 2, 3]), "assoc": rng.choice([1, 2, 4, 8] if policy == "plru" else [1, 2, 3, 4, 5]), "policy": policy, "pen": rng.choice([0, 1, 2, 7, 20])}
 
 
+def same_instr(a, b):
+    """same instruction = same class and same fields (identity is not required: a cache may hold copies)"""
+    return a is b or (type(a) is type(b) and vars(a) == vars(b))
+
+
 class FetchLog:
     def __init__(self, sim, installed, res, case):
         self.log = []
@@ -42,7 +47,7 @@ class FetchLog:
             res.count("fetches_observed")
             want = installed.get(address)
             res.count("fetch_identity_checks")
-            if want is None or r is not want:
+            if want is None or not same_instr(r, want):
                 if self.bad is None:
                     self.bad = "fetch at %r returned %r, uncached instruction memory holds %r" % (address, r, want)
             return r
@@ -176,7 +181,7 @@ def run_reload(case, res):
     for a in case["fetch1"]:
         if a < 4 * len(o1):
             r = ims.read_instruction(a)
-            if r is not o1[a // 4]:
+            if not same_instr(r, o1[a // 4]):
                 res.violation("C11", "fetch-transparency", "memory-system level: fetch %d returned %r" % (a, r), case)
                 return
     had_resident = any(b.valid_bit == "1" for s in ims.cache_repr().sets for b in s.blocks)
@@ -197,7 +202,7 @@ def run_reload(case, res):
         if a < 4 * len(o2):
             r = ims.read_instruction(a)
             rc.access(a, False)
-            if r is not o2[a // 4]:
+            if not same_instr(r, o2[a // 4]):
                 res.violation("C11", "reload-stale-instruction", "after reload fetch %d returned %r, new program holds %r" % (a, r, o2[a // 4]), case)
                 return
     st = ims.get_cache_stats()
